@@ -96,7 +96,7 @@ Terminates == <>(pc = "done")
 \* writes every table of the bound with the ideal answer for every search string (in the
 \* order of SearchSeq) to the JSON file IOEnv.ORACLE_OUT; the replayer feeds exactly these
 \* to the compiled search_sorted.  One state per table, so TLC's state count = table count.
-SearchSeq == PySort(Searches)
+SearchSeq == SetToSeq(Searches)      \* any fixed order (not sorted: recursion over hundreds of elements overflows the stack)
 Answers(t) == [i \in 1..Len(SearchSeq) |-> IdealFind(t, SearchSeq[i])]
 TInit == /\ names \in Tables /\ tbl = GenSort(names) /\ search = <<>>
          /\ pc = "oracle" /\ left = 0 /\ right = 0 /\ result = Unset /\ iters = 0
